@@ -20,7 +20,7 @@ RULE = (
     "inputs: (1) every sequence of <=3 (quick) / <=4 (thorough) lexemes from the alphabet {lda nop .db .macro .if .for .map .struct .scope .text .include_ips identifier label: numbers ' 's' ;c /* */ { } {{ }} ( ) [ ] # , . .b = := *= @= "
     "+ - * << & | ~ newline space \\\\ \" NUL else}, joined with and without separating spaces; (2) every truncation, single deletion and single duplication, at token and (strided) character granularity, of generated valid programs and of "
     "tests/samples/*.s; (2b) structured programs nesting / chaining 8-64 deep, unbounded macro recursion, loops whose body writes the loop variable or the names its bounds came from; (3) Hypothesis token soup of <=60 lexemes and arbitrary unicode text; (4) thorough: atheris on parse and full assembly.  Oracle: MZParser.parse_as_ast and Program.assemble_string_with_emitter finish (result or any "
-    "exception, including RecursionError) within 50,000 + 3,000*len(text) traced line events in a816/ and script/ frames (measured worst case ~155 events per character), expansion only when the literal loop counts bound it by 5,000 statements (+2,000 events per expanded statement, +4 M when macros are defined: recursion without a terminating condition is ended by the recursion limit).  "
+    "exception, including RecursionError) within 50,000 + 3,000*len(text) traced line events in a816/ and script/ frames and 20 s + len/500 of CPU time (a bound for work inside C calls, which produce no line events) (measured worst case ~155 events per character), expansion only when the literal loop counts bound it by 5,000 statements (+2,000 events per expanded statement, +4 M when macros are defined: recursion without a terminating condition is ended by the recursion limit).  "
     "Non-trivial = the input ends inside a construct (open comment / string / bracket / brace / macro header) or produces an error; distinct by input text."
 )
 LEVEL_TEXT = "Exhaustive short-sequence enumeration + mutation enumeration + random and coverage-guided soup under a deterministic watchdog; a budget overrun is the only violation signal, wall-clock expiry is 'inconclusive'."
@@ -61,7 +61,8 @@ def check_text(out: Outcome, text: str, sub, assemble=True, known_bound=None):
     from a816.program import Program
 
     nt = False
-    w = watchdog.Watchdog(budget(text))
+    cpu = 20.0 + len(text) / 500.0  # CPU seconds: the unchanged assembler needs milliseconds for these inputs
+    w = watchdog.Watchdog(budget(text), cpu_seconds=cpu)
     with driver.quiet():
         st_, val = w.run(MZParser.parse_as_ast, text, "soup.s")
     out.evals += 1
@@ -78,7 +79,7 @@ def check_text(out: Outcome, text: str, sub, assemble=True, known_bound=None):
             return nt
         # macro recursion without a terminating condition is ended by the interpreter's recursion limit (a constant):
         # measured worst case ~0.8 M events (scope-chain look-ups grow with the depth), allowance 4 M
-        w2 = watchdog.Watchdog(budget(text) + 2000 * bound + (4_000_000 if ".macro" in text else 0))
+        w2 = watchdog.Watchdog(budget(text) + 2000 * bound + (4_000_000 if ".macro" in text else 0), cpu_seconds=cpu + bound / 200.0)
 
         def run():
             p = Program()
@@ -131,6 +132,13 @@ def structured_inputs(d: int):
     ins.append(("text-no-table-macro-in-scope", org + ".macro m_t() {\n.text 'abc'\n}\n.scope st_m {\n{\nm_t()\n}\n}\n"))
     ins.append(("text-no-table-loop", org + ".for i_t := 0, 2 {\n{\n.text 'abc'\n}\n}\n"))
     ins.append(("text-no-table-if", org + ".if 1 {\n{\n{\n.text 'abc'\n}\n}\n}\n"))
+    # .text with a table (t15.tbl is written into the scratch directory by the structured unit): escapes of every length,
+    # terminated or not -- the encoder's work must stay proportional to the string
+    for n in (2, 8, 30, 64, 200):
+        ins.append((f"text-escape-unterminated:{n}", org + ".table 't15.tbl'\n.text 'ab[0x" + "a1" * (n // 2) + "'\n"))
+        ins.append((f"text-escape-long:{n}", org + ".table 't15.tbl'\n.text 'ab[0x" + "a1" * (n // 2) + "]b'\n"))
+    ins.append(("text-many-open-brackets", org + ".table 't15.tbl'\n.text '" + "[0x" * d + "'\n"))
+    ins.append(("text-long-string", org + ".table 't15.tbl'\n.text '" + "abc[0x41]" * (4 * d) + "'\n"))
     ins.append(("struct-with-comments", org + ".struct st_x {\n" + "; c\n" * d + "}\n"))
     ins.append(("struct-empty", org + ".struct st_y {\n}\n.struct st_z {\n/* c */\n}\n"))
     ins.append(("struct-unclosed", org + ".struct st_w {\n; c\n" * min(d, 8)))
@@ -312,6 +320,7 @@ def run_case(case) -> Outcome:
         return out
     if t == "structured":
         nt = 0
+        driver.write_files({"t15.tbl": "01=a\n02=b\n03=ab\n0405=abc\n"})
         for name, text in structured_inputs(case["depth"]):
             kb = int(name.rsplit("bound=", 1)[1]) if "bound=" in name else None  # iteration count known by construction
             if check_text(out, text, {"t": "text", "text": text, "known_bound": kb}, known_bound=kb):
